@@ -82,6 +82,7 @@ def gen_case(run_seed: int, tier: str, index: int = 0) -> dict:
         p_const=r.choice([0.1, 0.3]), p_unused=r.choice([0.1, 0.4]), metadata=r.random() < 0.5, big_init=r.random() < 0.4, dup_inits=r.random() < 0.4,
         unused_function=r.random() < 0.3, init_as_input=r.choice([0.0, 0.3, 1.0]), name_noise=r.choice([0.0, 0.0, 0.3]), unsorted=r.random() < 0.25, name_style=r.choice([0, 0, 1]), func_name_overlap=r.choice([0.0, 0.0, 0.5, 1.0]),
         lazy_failing_init=r.random() < 0.15, annot_noise=r.choice([0.0, 0.0, 0.3, 0.6]),
+        more_ops=Streams(run_seed).rng("more-ops").random() < 0.6, alias_outputs=Streams(run_seed).rng("alias-outputs").choice([0.0, 0.0, 0.5, 1.0]),
     )  # fmt: skip
     names = list(PASSES)
     if params["name_noise"]:
